@@ -4,7 +4,8 @@
    MTfit/probability/probability.py (combine_mu) by the correspondence runs. *)
 From Coq Require Import ZArith List Reals Sorting.Permutation.
 From MTV.Model Require Import Joint.
-From MTV.Proofs Require Import C15_joint.
+From MTV.Gen Require Import Kernels.
+From MTV.Proofs Require Import C15_joint C15_scale.
 Import ListNotations.
 
 (* without relative data the events are independent *)
@@ -56,6 +57,22 @@ Theorem C15_scale_station_order_independent : forall l l', l <> [] -> positive l
   exists fm fs fs', rcombine l = Some (fm, fs) /\ rcombine l' = Some (fm, fs') /\ (fs * fs = fs' * fs')%R.
 Proof. exact combine_station_order_independent. Qed.
 Print Assumptions C15_scale_station_order_independent.
+
+
+(* ---- the per-station estimate (regenerated from probability.scale_estimator on every run: Gen/Kernels.v, py_scale_mu) and the
+   noise-free ratio mu_y z / mu_x: exact distance, and an explicit bound that tends to zero with the two fractional errors *)
+Theorem C15_scale_estimate_distance_from_the_noise_free_ratio : forall z mx my px py,
+  (0 < z)%R -> (0 < mx)%R -> (0 < my)%R -> (0 < px)%R -> (0 < py)%R ->
+  (py_scale_mu z mx my px py - mu1 z mx my = (cA z mx my py * s12 z mx my px py - cC z mx my px py * mu1 z mx my) / cN z mx my px py)%R.
+Proof. exact scale_estimate_error. Qed.
+Print Assumptions C15_scale_estimate_distance_from_the_noise_free_ratio.
+
+Theorem C15_scale_estimate_converges_to_the_true_ratio : forall z mx my px py,
+  (0 < z)%R -> (0 < mx)%R -> (0 < my)%R -> (0 < px)%R -> (0 < py)%R ->
+  (Rabs (py_scale_mu z mx my px py - my * z / mx) <=
+   (py * py * (my * my) * (z * z) + px * px * (mx * mx)) / (mx * my * z) + 2 * sqrt (2 / PI) * py * mx / (my * z))%R.
+Proof. exact scale_estimate_converges. Qed.
+Print Assumptions C15_scale_estimate_converges_to_the_true_ratio.
 
 Example C15_nonvacuous :
   joint coded_term 2 true [mkEv 5 [1; 2; 3]; mkEv 7 [3; 2; 9]; mkEv 11 [9]]%Z
